@@ -8,7 +8,8 @@
 //	TR <scenario> <tid:role[:cycle ns],...> <event> <event> ... [DEADLOCK|HANG]    one logged schedule
 //	WN ... / RUN ... / RN ... / SH ...                                  whole-node checks (node.go)
 //
-// roles: rx, app, tx / txc (event / cyclic message), txon / txcon (the same, cyclic transmission
+// roles: rx, app, tx:<cycle ns>:<send type 0 none 1 cyclic 2 event> (the descriptor's facts; whether
+// the message may get a ticker is computed by the model), txon:.. (the same, cyclic transmission
 // already enabled when the transmitter starts and no token in the wake-up channel).
 //
 // Event tokens (numbers in hex; h = 1 iff the caller owned the node lock at the call):
@@ -16,6 +17,8 @@
 //	L.t U.t  A.t.<hook|time|unm0|unm1|flag0|flag1|frame<v>|other>.h  HC.t.h  HR.t.ok  M.t.m.v.h
 //	RV.t.ok RF.t LK.t.known RE.t.ok  TI.t GW.t WK.t AC.t.a X.t.f.ok  SF.a.m.b WS.a.m OF.a.m OA.a
 //	CA  DN.t.code (1 nil, 0 the injected error, 2 another error)
+//	NT.t   no tick within a second although transmitter t sat in its select (cycle time <= 1 ms)
+//	PN.t.<hex text>   the runner function of thread t panicked
 //	DL.t.<hook return>.<call>.<deadline|none>   after every X: what the frame transmitter saw of the
 //	                                            context it was handed (ns since the world's origin)
 //
@@ -31,6 +34,7 @@ import (
 	"strconv"
 	"strings"
 	"sync"
+	"time"
 )
 
 func main() {
@@ -88,6 +92,10 @@ func main() {
 		sc := randomScenario(rng, k)
 		emit(runSchedule(sc, func(n int) int { return rng.Intn(n) }))
 	}
+	// 2b. messages that must never get a ticker, toggled
+	for k := 0; k < 12+budget/100 && !tooAbnormal(); k++ {
+		emit(runSchedule(notEligibleScenario(k), func(n int) int { return rng.Intn(n) }))
+	}
 	// 3. fixed scenarios under random schedules
 	fs := fixedScenarios()
 	for k := 0; k < budget/4 && !tooAbnormal(); k++ {
@@ -107,6 +115,11 @@ func main() {
 			if k%2 == 0 {
 				emit(runSchedule(tickOnScenario(), func(n int) int { return rng.Intn(n) }))
 			}
+			if k%3 == 0 {
+				emit(runSchedule(tickScenarioWith("ticks1ns", time.Nanosecond), func(n int) int { return rng.Intn(n) }))
+			}
+			// failures on tick-triggered transmissions
+			emit(runSchedule(tickFailScenario([]string{"hook", "tx"}[k%2], 1+k%3, k%4 >= 2), func(n int) int { return rng.Intn(n) }))
 		}
 		rounds := 2
 		if budget >= 2000 {
